@@ -429,12 +429,18 @@ func TestCliTmpl(t *testing.T) {
 			}
 			f, _ := msgtmpl.Discover(iface)
 			dur := Pick(r, 10*time.Second, time.Minute, 10*time.Minute, 45*time.Minute)
+			tStart := time.Now().UnixNano()
 			ctx, cancel := context.WithTimeout(context.Background(), dur)
 			defer cancel()
 			done := make(chan error, 1)
 			go func() { done <- dclient.VerifSendMessage(ctx, iface, f) }()
 			<-done
 			after := len(times)
+			for _, tt := range times { // the exchange ended when its context did: nothing may be sent after that instant
+				if tt > tStart+int64(dur) {
+					after = -1
+				}
+			}
 			time.Sleep(5 * time.Minute)
 			synctest.Wait()
 			prev := int64(700 * time.Millisecond)
